@@ -223,14 +223,10 @@ func runReader(format string, zc bool, maxCalls int, rd io.Reader, measure bool,
 	}
 	done := make(chan pcapRun, 1)
 	go func() { done <- runReaderInline(format, zc, maxCalls, rd, measure, sched...) }()
-	tm := time.NewTimer(20 * time.Second)
-	defer tm.Stop()
-	select {
-	case run := <-done:
+	if run, ok := recvBusyAware(done, 20*time.Second); ok {
 		return run
-	case <-tm.C:
-		return pcapRun{hdr: "hang", hdrObs: "hdr=hang", hung: true}
 	}
+	return pcapRun{hdr: "hang", hdrObs: "hdr=hang", hung: true}
 }
 
 // sched (optional, classic pcap only): call index -> value given to Reader.SetSnaplen just before that call
